@@ -109,7 +109,7 @@ Section E2E.
   Proof.
     intros E (Hlen & Hs & Hq) Hmp Hb Hn. subst n.
     destruct (encode_subframe_good ent qlpc cfg fi var sig _ s E Hmp Hb Hs Hn
-                ltac:(intros Hu; destruct (Hq Hu) as (A & B & _); split; assumption)) as (Hv & Ht & Hu & _).
+                ltac:(intros Hu; destruct (Hq Hu) as (A & B & _); split; assumption)) as (Hv & Ht & Hu & Hq32).
     destruct (encode_subframe_dims ent qlpc cfg fi var sig _ s E ltac:(intros Hu'; destruct (Hq Hu') as (_ & B & _); lia)) as [Hd1 Hd2].
     split; [repeat split; assumption|].
     apply (encode_subframe_lossless ent qlpc cfg fi var sig _ s E (sample_ok_bounded _ _ Hb Hs)).
@@ -173,7 +173,10 @@ Section E2E_frame.
     Forall (bounded (2 ^ 24)) (chans channels block) ->
     forallb (fun c => forallb (in_range bps) c) (chans channels block) = true ->
     i_rate si = rate -> i_bps si = bps ->
-    exists ctag, chassign_tag (h_ch (f_header f)) = Ok ctag /\ f_precomputed f = None /\ frame_ops_wfb f = true /\
+    exists ctag, chassign_tag (h_ch (f_header f)) = Ok ctag /\ f_precomputed f = None /\
+      ((exists cha, mk_header rate bps cha (N.of_nat n) number = Ok (f_header f) /\ chassign_tag cha = Ok ctag)
+       /\ Forall2 (sub_ready (N.of_nat n)) (f_subframes f) (flac_bpss ctag bps)) /\
+      frame_ops_wfb f = true /\
       forall bytes rest, Forall (fun x => x < 256) rest -> frame_bytes f = Ok bytes ->
       read_frame si (bytes ++ rest) = Some (mkFH (N.of_nat n) ctag number (rate mod 2 ^ 32) bps, chans channels block, rest).
   Proof.
@@ -207,6 +210,8 @@ Section E2E_frame.
               chassign_tag cha = Ok ctag -> forall subs,
               Forall2 (sub_ready (N.of_nat n)) subs (flac_bpss ctag bps) ->
               undo_stereo ctag (map decode_sub subs) = Some cs ->
+              ((exists cha', mk_header rate bps cha' (N.of_nat n) number = Ok h /\ chassign_tag cha' = Ok ctag)
+               /\ Forall2 (sub_ready (N.of_nat n)) subs (flac_bpss ctag bps)) /\
               frame_ops_wfb (mkFrame h subs None) = true /\
               forall bytes rest, Forall (fun x => x < 256) rest -> frame_bytes (mkFrame h subs None) = Ok bytes ->
               read_frame si (bytes ++ rest) = Some (mkFH (N.of_nat n) ctag number (rate mod 2 ^ 32) bps, cs, rest)).
@@ -218,7 +223,7 @@ Section E2E_frame.
           { unfold variants. fold cs idx. rewrite Ecs. apply in_or_app. left.
             unfold idx. destruct (N.to_nat channels) as [|k] eqn:Ek; [lia|]. cbn [seq map combine]. left. reflexivity. }
           destruct (Hblk _ _ Hin) as [A _]. rewrite A. reflexivity. }
-      rewrite Hn0 in Eh. unfold mk_header in Eh.
+      rewrite Hn0 in Eh. split; [split; [exists cha; split; assumption | exact Hsubs]|]. unfold mk_header in Eh.
       destruct (block_size_code (N.of_nat n mod 2 ^ 16)) as [bc| |] eqn:Ebc; cbn [bind] in Eh; try discriminate.
       apply Ok_inj in Eh. subst h.
       assert (Hn16 : N.of_nat n mod 2 ^ 16 = N.of_nat n) by (apply N.mod_small; change c_MAX_BLOCK_SIZE with 32767 in Hn; change (2 ^ 16) with 65536; lia).
@@ -308,7 +313,7 @@ Section E2E_frame.
   Proof.
     intros E Hmp Hbps Hrate Hch Hnum Hn1 Hn Hblk Hbound Hrange Hsr Hsb Hrest Hfb.
     destruct (frame_end_to_end_full cfg rate channels bps fi number block f si n E Hmp Hbps Hrate Hch Hnum Hn1 Hn Hblk Hbound Hrange Hsr Hsb)
-      as (ctag & _ & _ & _ & H). exists ctag. exact (H bytes rest Hrest Hfb).
+      as (ctag & _ & _ & _ & _ & H). exists ctag. exact (H bytes rest Hrest Hfb).
   Qed.
 End E2E_frame.
 
